@@ -77,6 +77,21 @@ CHECKS = {
             "Programs: grammar-generated fragments in two tiers (tier 1 assignment-normal form where no legitimate divergence exists - any disagreement is a violation; tier 2 nested arithmetic where vsim evaluates every right-hand side and condition twice, at IEEE context width and unbounded, and taints targets on which the two differ - disagreements on tainted signals are the known intermediate-overflow class, counted, not reported). Features: signedness mixes, constants incl. negative/boundary, slices/Cat/Replicate on both sides, Array reads, If/Elif/Else, Case with signed selectors, comb and sync logic in 1-2 clock domains with generated edge schedules, resets, non-zero/reset-less registers, memories (1-2 ports, every mode, granularity, read enable, async read, partial init), both comb emission styles. Each program runs 6..24 instants of generated stimuli in both executions; all compared signals and memory words are compared after every instant.",
             "Trusted: vsim (validated by conformance vectors taken from the standard's text - exit 2 on disagreement), CPython, Hypothesis. Not compared: 'output reg' ports (no initialiser in the emitted text), Instances (not executed). Known semantic-gap classes excluded by construction: memories are not reset in Verilog, multi-clock memories forced READ_FIRST, NO_CHANGE with granularity, mixed-signedness Arrays, out-of-range addresses. Corpus of real cores: not yet part of this check.",
             "DESIGN.md section 4 / C01"),
+    "C11": ("fault_enumeration",
+            "fault-injection property-based testing (Hypothesis) + exhaustive sweep of the fault offset: deadline / error-indication / undisturbed / recovery invariants from per-cycle port traces",
+            "Wishbone InterconnectShared(timeout_cycles=T), AXILiteInterconnectShared, AXIInterconnectShared (single-beat), crossbars built with a timeout, and CPU-less SoCs for the bus_errors counter; T in {1,2,3,4,8,16}; 1-2 masters, 1-2 slaves behind real SoCRegion decoders. Faults: which slave goes silent, from when, for how long (finite/for ever), per-request answer latency 0..T+2 or never (so every alignment to the expiry cycle occurs; exhaustively for T <= 4), unmapped addresses, AW/W skew, master back-pressure on the forced response, followed by a recovery program for every master. Oracle: termination within T + c of being granted (c re-measured per standard), error indication (all-ones data + ack / SLVERR, exactly one error pulse), requests answered before expiry untouched, exactly one termination, recovery traffic correct for every master, bus_errors == number of forced terminations.",
+            "Trusted: Migen's simulator, harness agents; constants c derived from the documented timer/FSM and re-measured on the healthy code. Seven known findings (crossbars ignore the timeout; AXI timeouts cover only acceptance; four RESPOND-state defects of AXILiteTimeout; merged error pulse) are keyed narrowly, excluded from the main envelope and replayed from witnesses.",
+            "DESIGN.md section 4 / C11"),
+    "C19": ("exploration",
+            "property-based testing (Hypothesis): pin-level protocol monitors and cycle-accurate counter models over generated command histories, dividers, tuning words, phases and rate mismatch; hardware partner models for same-cycle reactions",
+            "Timer (behind a real CSRBank: load/reload/en/update histories, zero event, one-shot after exactly load cycles, uptime), UART TX (per-bit-cell monitor, 4..48 cycles/bit, back-to-back), UART RX (fractional-time line driver inside the measured envelope: +-2 % at >= 16 cycles/bit, +-1 % at >= 8.68; framing errors, breaks), UART core with stub PHY (FIFO/status/events/auto flush), SPIMaster behind its CSRs with a mode-0 Migen slave (clock count, cs framing, MOSI MSB-first, MISO capture, divider rewritten at run time, overlapping starts), SPISlave, I2CMaster at its pads with a scripted Migen slave and a bus-legality monitor (commands also while busy), WaitTimer, timeline, PWM, Watchdog. Every history ends with a bounded return-to-idle requirement.",
+            "Trusted: Migen's simulator, harness monitors/partners; CSR access through a real CSRBank (write in step t takes effect in cycle t+2, self-checked). Envelopes stated in ASSUMPTIONS. Not covered: MultiChannelPWM, UART with phy_cd != sys, I2C clock stretching.",
+            "DESIGN.md section 4 / C19"),
+    "C20": ("exploration",
+            "property-based testing (Hypothesis): recomputation of every returned configuration in exact fractions + declared-range checks + Instance parameter equality; refusals judged by an independent search over the declared ranges",
+            "Every helper family (Xilinx S6PLL/S6DCM/S7PLL/S7MMCM/US/US+, Lattice ECP5/iCE40/NX, Intel Cyclone IV/V/10LP/MAX10/Stratix V, Gowin GW1N/GW2A/GW5A, Efinix Trion via a stand-in platform, CologneChip GateMate) x device variants / speed grades x input frequencies (log-uniform and on the bounds) x 1..max outputs (frequency, phase, margin in {0, 1e-4, 1e-2, 5e-2}) plus by-construction requests built from dividers inside the declared ranges and edge requests just past a range end. If a configuration is returned: every output recomputed from the returned integers in Fraction within margin (slack 1e-12), every divider/multiplier/VCO/PFD inside the declared ranges, emitted Instance parameters equal the configuration. If refused: an independent interval search over the same ranges must find nothing. Exceptions other than the documented refusal are violations.",
+            "Trusted: the per-family primitive formulas stated once in the adapters. Sixteen known findings (Gowin search/port/margin defects, ECP5 spare feedback divider and feedback search, NX reference divider not emitted / PFD window, iCE40 finalize crash, GW5A odiv range, Trion window/crash/margin) are keyed narrowly and replayed; refusals at margin 0 are not judged. TITANIUMPLL computes nothing in LiteX.",
+            "DESIGN.md section 4 / C20"),
 }
 
 NOT_YET = {}
